@@ -149,7 +149,9 @@ def worker_c(case: Dict[str, Any]) -> CaseResult:
         return CaseResult("inconclusive", note="pair %r not usable in scope %s: %s" % ((a, b), scope, str(e)[:100]), stats={"c.invalid": 1})
     replay_case = dict(case)
     with core.Scratch() as root:
-        cfg = write_case(root, sdl, queries, {"convert_to_snake_case": snake})
+        cfg = write_case(root, sdl, queries, dict({"convert_to_snake_case": snake}, **({"plugins": ["vf_plugins.DropQuerySuffix"]} if case.get("name_plugin") else {})))
+        if case.get("name_plugin"):
+            feats.append("plugin.process_name_hook")
         with warnings.catch_warnings():
             warnings.simplefilter("ignore")
             gen = run_cli(root, "client", cfg)
@@ -290,6 +292,11 @@ def parts_b_c(r: core.Run, tier: str, seed: int) -> None:
     # two variables that stay different names after the mapping, one of which is what a method local is renamed to when the other takes its name
     for pair in (("query", "_query"), ("variables", "_variables"), ("response", "_response"), ("data", "_data"), ("_query", "query"), ("_data", "data")):
         ccases.append({"pair": list(pair), "scope": "variables", "snake": False, "kind": "pair", "local_rename": True})
+
+    # two operations whose names meet only after a naming plugin's process_name hook ran: still "two distinct names of one scope"
+    for snake in (True, False):
+        for pair in (("getUser", "getUserQuery"), ("listItemsQuery", "listItems"), ("get_user_query", "get_user")):
+            ccases.append({"pair": list(pair), "scope": "operations", "snake": snake, "kind": "pair", "name_plugin": True})
 
     # single names in each scope, next to an unrelated partner: the wire name must stay, the value must arrive (names that meet a method local or a
     # reserved word only after the mapping are the interesting ones)
